@@ -1,7 +1,8 @@
 (** C05 — selected-output table, string, lines and file describe the same data.
     Only statements + [exact]; the proofs live in Wrapper/SelOutProofs.v and Wrapper/RouteProofs.v. *)
 From Coq Require Import List ZArith String Bool.
-From IPV.Wrapper Require Import SelOut SelOutSpec SelOutProofs Route Lines RouteProofs.
+From IPV.Wrapper Require Import SelOut SelOutSpec SelOutProofs Route Lines RouteProofs Order.
+From IPV.Gen Require Import Gen_C05.
 Import ListNotations.
 Local Open Scope list_scope.
 
@@ -84,6 +85,19 @@ Theorem C05_lines_are_the_string : forall s, (s = EmptyString \/ exists p, s = (
   unlines (split_lines s) = s.
 Proof. exact unlines_split. Qed.
 Print Assumptions C05_lines_are_the_string.
+
+(** T-gen (regenerated on every run from print.cpp / tidy.cpp): the heading blocks are emitted by tidy_punch in the order in
+    which punch_all emits the values, the identifier flags are tested in the same order in both, user-punch headings come last:
+    the heading line of string/file and row 0 of the table name the same columns in the same order. *)
+Theorem C05_heading_order_eq_value_order :
+  heading_order_eq_value_order punch_all_calls value_flag_order heading_flag_order heading_list_order user_punch_headings_last = true.
+Proof. vm_compute. reflexivity. Qed.
+Print Assumptions C05_heading_order_eq_value_order.
+Theorem C05_order_obligation_sound : forall pc vf hf hl ul,
+  heading_order_eq_value_order pc vf hf hl ul = true ->
+  map block_of pc = "identifiers"%string :: hl ++ ["user_punch"%string] /\ vf = hf /\ ul = true.
+Proof. exact order_obligation_sound. Qed.
+Print Assumptions C05_order_obligation_sound.
 
 (** Non-vacuity: a concrete reachable table with a late column and an unpunched cell. *)
 Example C05_example :
